@@ -33,6 +33,11 @@ func panicOrigin(stack string) string {
 		if strings.HasPrefix(l, "runtime.") {
 			continue
 		}
+		// standard-library frames (bufio, io, crypto/tls ...) panic on behalf of their
+		// caller: the origin is the innermost frame of fasthttp, its dependencies or the harness
+		if !strings.Contains(l, "github.com/") && !strings.HasPrefix(l, "verif/") && !strings.HasPrefix(l, "golang.org/") {
+			continue
+		}
 		return l
 	}
 	return ""
